@@ -22,6 +22,7 @@ type Obligation struct {
 	Reach   string
 	NAssume int
 	Src     string
+	Bounded string // name of the bounded instance this obligation belongs to ("" = unbounded)
 	Cover   bool // expects sat (vacuity guard)
 	Block   int  // block the obligation belongs to (-1: none); only assumptions of its CFG ancestors are relevant
 	tx      *FnTx
@@ -87,6 +88,7 @@ type FnTx struct {
 	deferred    []*ssa.Defer
 	fnValSorts  map[string][2][]types.Type // name -> (param types, result types)
 	retStates   []retPoint
+	instance    string // bounded instance name ("" = unbounded)
 	relCache    map[int]map[int]bool
 	oblBlock    int
 }
@@ -168,7 +170,10 @@ func (tx *FnTx) assumeReach(s string) {
 }
 
 func (tx *FnTx) oblige(kind, label, goal, reach, src string) *Obligation {
-	o := &Obligation{Name: tx.key + "#" + kind + ":" + label, Fn: tx.key, Kind: kind, Label: label, Goal: goal, Reach: reach, NAssume: len(tx.assumes), Src: src, tx: tx, Block: -1}
+	if tx.instance != "" {
+		label += "[" + tx.instance + "]"
+	}
+	o := &Obligation{Bounded: tx.instance, Name: tx.key + "#" + kind + ":" + label, Fn: tx.key, Kind: kind, Label: label, Goal: goal, Reach: reach, NAssume: len(tx.assumes), Src: src, tx: tx, Block: -1}
 	if tx.curBlock != nil {
 		o.Block = tx.curBlock.Index
 	}
@@ -890,6 +895,22 @@ func (tx *FnTx) run() (err error) {
 			}
 			tx.assume(s)
 		}
+		if tx.instance != "" {
+			found := false
+			for _, in := range tx.c.Instances {
+				if in.Label == tx.instance {
+					s, err := env.TrBool(in.E)
+					if err != nil {
+						return fmt.Errorf("%s: instance %s: %v", tx.key, in.Label, err)
+					}
+					tx.assume(s)
+					found = true
+				}
+			}
+			if !found {
+				return fmt.Errorf("%s: no instance %q in the contract", tx.key, tx.instance)
+			}
+		}
 		o := tx.oblige("cover", "pre", "false", "true", "precondition is satisfiable")
 		_ = o
 	}
@@ -1382,6 +1403,32 @@ func (tx *FnTx) havocRegions(pre *State, regs []ModRegion) *State {
 					}
 					cur = sapp("store", cur, r.Ref, fv.S)
 				}
+			}
+			n.heaps[k] = cur
+			continue
+		}
+		if c.Kind == compElem {
+			// object-level stores keep the arrays of untouched objects syntactically identical; inside a touched
+			// object only the declared ranges may differ (one quantified constraint per object)
+			cur := before
+			seen := map[string]bool{}
+			for _, r := range regs {
+				if r.Comp != c || seen[r.Ref] {
+					continue
+				}
+				seen[r.Ref] = true
+				arr := tx.d.fresh("Ah_"+k, "(Array Int "+c.VSort+")")
+				tx.nq++
+				p := fmt.Sprintf("p_f%d", tx.nq)
+				in := []string{}
+				for _, r2 := range regs {
+					if r2.Comp == c && r2.Ref == r.Ref {
+						in = append(in, sand("(<= "+r2.Lo+" "+p+")", "(< "+p+" "+r2.Hi+")"))
+					}
+				}
+				oldArr := sapp("select", cur, r.Ref)
+				tx.assume(fmt.Sprintf("(forall ((%s Int)) (! (=> %s (= (select %s %s) (select %s %s))) :pattern ((select %s %s))))", p, snot(sor(in...)), arr, p, oldArr, p, arr, p))
+				cur = sapp("store", cur, r.Ref, arr)
 			}
 			n.heaps[k] = cur
 			continue
